@@ -114,6 +114,7 @@ func registerEnvIntrinsics(I map[string]Intrinsic) {
 	vredirect("(*net.TCPListener).Addr", "TCPListenerAddr")
 	vredirect("crypto/tls.NewListener", "TLSNewListener")
 	vredirect("crypto/tls.DialWithDialer", "TLSDialWithDialer")
+	vredirect("(*crypto/tls.Conn).Handshake", "TLSConnHandshake")
 	vredirect("(*crypto/tls.Conn).Read", "TLSConnRead")
 	vredirect("(*crypto/tls.Conn).Write", "TLSConnWrite")
 	vredirect("(*crypto/tls.Conn).Close", "TLSConnClose")
